@@ -4,12 +4,14 @@
 #   2. the demonstration fails with the change and passes without it
 #   3. the change is applied to /repo, the given checks (default: the property's own) run with outputs redirected, the
 #      change is undone straight afterwards
+#   SEED_NAME=<dir name> stores a further change for the same property under seeded/<dir name>/ (default: <ID>)
 # Results are appended to seeded/<ID>/meta.json by tools/seed_record.py
 set -u
 ID=$1; WT=${2:-/tmp/seed_$ID}; shift; shift || true
 CHECKS=${@:-$ID}
 VERIF=$(cd "$(dirname "$0")/.." && pwd)
-OUT=$VERIF/seeded/$ID; mkdir -p $OUT
+NAME=${SEED_NAME:-$ID}
+OUT=$VERIF/seeded/$NAME; mkdir -p $OUT
 cd $WT || exit 2
 git diff -- yowsup > $OUT/patch.diff
 [ -s $OUT/patch.diff ] || { echo "no diff in $WT"; exit 2; }
@@ -17,9 +19,9 @@ cp seed_demo.py $OUT/demo.py 2>/dev/null
 cp seed_meta.json $OUT/agent_meta.json 2>/dev/null
 echo "== tests with change"; T=$(PYTHONPATH=$WT /venv/bin/python -m pytest -q -p no:cacheprovider --continue-on-collection-errors 2>&1 | tail -1); echo "$T"
 echo "== demo with change"; PYTHONPATH=$WT timeout 600 /venv/bin/python seed_demo.py >/tmp/seed_demo_with.log 2>&1; DW=$?; echo "rc=$DW"; tail -3 /tmp/seed_demo_with.log
-git stash -q -- yowsup
+git checkout -- yowsup   # (not git stash: the stash is shared between worktrees)
 echo "== demo without change"; PYTHONPATH=$WT timeout 600 /venv/bin/python seed_demo.py >/tmp/seed_demo_without.log 2>&1; DO=$?; echo "rc=$DO"; tail -2 /tmp/seed_demo_without.log
-git stash pop -q
+git apply $OUT/patch.diff
 cd $VERIF
 git -C /repo apply $OUT/patch.diff || { echo "patch does not apply to /repo"; exit 2; }
 RES=""
